@@ -316,8 +316,22 @@ theorem hare_homogeneousSTV (ae mand : Bool) (step : Option Int) :
   have : f = Gen.Quota.hare := by injection hf with h; exact h.symm
   rw [this]; exact hare_homogeneous k V n
 
+theorem imperiali_homogeneousSTV (ae mand : Bool) (step : Option Int) :
+    HomogeneousSTV ⟨some Gen.Quota.imperiali, ae, mand, step⟩ := by
+  intro f hf k V n
+  have : f = Gen.Quota.imperiali := by injection hf with h; exact h.symm
+  rw [this]; exact imperiali_homogeneous k V n
+
+theorem hagenbach_bischoff_homogeneousSTV (ae mand : Bool) (step : Option Int) :
+    HomogeneousSTV ⟨some Gen.Quota.hagenbach_bischoff, ae, mand, step⟩ := by
+  intro f hf k V n
+  have : f = Gen.Quota.hagenbach_bischoff := by injection hf with h; exact h.symm
+  rw [this]; exact hagenbach_bischoff_homogeneous k V n
+
 /-- **STV, Gregory transfers, Hare quota — the selector** (`TransferableVoteSelector(transferer='Gregory',
-    quota_function='hare')`), any `accept_quota_equal` / `mandatory_quota` / `eliminate_step`: by the simulation
+    quota_function='hare')`), any `accept_quota_equal` (so also the strict variant `accept_quota_equal=False`) /
+    `mandatory_quota` / `eliminate_step`, and equally the Imperiali and Hagenbach-Bischoff quotas
+    (`imperiali_homogeneousSTV`, `hagenbach_bischoff_homogeneousSTV`): by the simulation
     `allocation₂ = k • allocation₁` through the initial allocation (Gregory split of shared first ranks), every count
     (quota `kq`, whole quotas `floor(kv/(kq))`, surplus retention `(cur − n)/cur`, eliminations by `get_n_best`) and the
     loop.  The draw stream is not consumed by the Gregory engine. -/
